@@ -4,25 +4,16 @@ import AwProofs.Lemmas.StoreReads
 /-!
 # One turn of the heartbeat loop on the sqlite backend refines `SpecStep`
 
-The limit-1 read of this backend has the default lower bound `endtime >= 0`, so it returns the
-newest event only if that event does not end before the epoch; the refinement needs that no stored
-event ends before the epoch (`NonNeg`).
+The limit-1 read of this backend returns the newest event of the bucket wherever it ends (repaired,
+F22: a read without a start instant has no lower bound), so the refinement needs no hypothesis on
+the stored events or the heartbeat. History: before the repair the read added `endtime >= 0`, and
+this file carried the hypothesis "no stored event and no heartbeat ends before the epoch"
+(a predicate `NonNeg`, kept by merging) through `hbStep_refines`.
 -/
 namespace Aw.Store.Sqlite
 open Aw Aw.Store Aw.Heartbeat Aw.Store.HbLoop
 variable {D : Type} [DecidableEq D]
 set_option linter.unusedSectionVars false
-
-/-- the event does not end before the epoch -/
-def NonNeg (e : Ev D) : Prop := 0 ≤ e.ts + e.dur
-
-theorem nonNeg_withId (e : Ev D) (i : Option Int) (h : NonNeg e) : NonNeg { e with id := i } := h
-
-theorem nonNeg_merge (pt : Int) (l hb m : Ev D) (hm : merge pt l hb = some m) (hl : NonNeg l)
-    (_h : NonNeg hb) : NonNeg m := by
-  have := merge_eq pt l hb m hm
-  unfold NonNeg Ev.fin at *
-  omega
 
 theorem getEvents_one_empty {s : St D} {b : String} {m : Meta} (hv : view s b = some (m, [])) :
     getEvents s b 1 none none = [] := by
@@ -53,8 +44,7 @@ theorem hb_insert {s : St D} {b : String} {m : Meta} {es : List (Ev D)} (hb : Ev
   · intro b' hb'; rw [hview]; exact Spec.frame_insert hb'
 
 theorem hbStep_refines (pt : Int) (b : String) (s : St D) (hb : Ev D) (m : Meta)
-    (es : List (Ev D)) (hI : Inv s) (hv : view s b = some (m, es)) (hpos : ∀ x ∈ es, NonNeg x)
-    (_hq : NonNeg hb) :
+    (es : List (Ev D)) (hI : Inv s) (hv : view s b = some (m, es)) :
     ∃ s', hbStep pt b s hb = .ok s' ∧ Inv s' ∧
       (∃ es', view s' b = some (m, es') ∧ SpecStep pt es hb es') ∧
       ∀ b', b' ≠ b → view s' b' = view s b' := by
@@ -65,7 +55,7 @@ theorem hbStep_refines (pt : Int) (b : String) (s : St D) (hb : Ev D) (m : Meta)
     unfold hbStep
     rw [getEvents_one_empty hv]
     exact hi
-  · obtain ⟨t, hn, hg, _⟩ := replaceLast_view_partial hI hv hne hpos hb
+  · obtain ⟨t, hn, hg, _⟩ := replaceLast_view hI hv hne hb
     obtain ⟨ti, hti⟩ := Option.isSome_iff_exists.mp ((ids_nodup hI hv).2 t hn.1)
     cases hm : merge pt t hb with
     | none =>
@@ -76,7 +66,7 @@ theorem hbStep_refines (pt : Int) (b : String) (s : St D) (hb : Ev D) (m : Meta)
       simp only [hm]
       exact hi
     | some mg =>
-      obtain ⟨t', hn', hg', hview⟩ := replaceLast_view_partial hI hv hne hpos mg
+      obtain ⟨t', hn', hg', hview⟩ := replaceLast_view hI hv hne mg
       rw [hg] at hg'
       simp only [List.cons.injEq, and_true] at hg'
       subst hg'
@@ -102,7 +92,8 @@ theorem exHb_inv : Inv exHb := by
 
 theorem exHb_view : view exHb "c" = some (default, []) := rfl
 
-/-- two heartbeats before the epoch, 1 µs apart, same data -/
+/-- two heartbeats before the epoch, 1 µs apart, same data (history of repair F22: the stream on
+    which the loop used to store two events where `heartbeat_reduce` yields one) -/
 def cexStream : List (Ev Nat) := [⟨none, -10, 1, 7⟩, ⟨none, -9, 1, 7⟩]
 
 end Aw.Store.Sqlite
